@@ -290,7 +290,7 @@ func init() {
 }
 
 func genC12(rng *rand.Rand, tier string, w *bufio.Writer) {
-	cases := 120
+	cases := 90
 	if tier == "thorough" {
 		cases = 1500
 	}
